@@ -17,6 +17,9 @@ if [ "$4" = r9 ]; then ROOT=/tmp/seed9; NS="17 18"; fi
 if [ "$4" = r10 ]; then ROOT=/tmp/seed10; NS="19 20"; fi
 if [ "$4" = r11 ]; then ROOT=/tmp/seed11; NS="21 22"; fi
 if [ "$4" = r12 ]; then ROOT=/tmp/seed12; NS="23 24"; fi
+if [ "$4" = r13 ]; then ROOT=/tmp/seed13; NS="25 26"; fi
+if [ "$4" = r14 ]; then ROOT=/tmp/seed14; NS="27 28"; fi
+if [ "$4" = r15 ]; then ROOT=/tmp/seed15; NS="29 30"; fi
 for n in $NS; do
   [ -f $ROOT/$P/out/patch-$n.diff ] || { echo "no patch-$n for $P" > /verif/.build/sc-$P-$n.log; continue; }
   FEATURES=$SEEDFEATURES SEEDROOT=$ROOT /verif/tools/seed_confirm.sh $P $n $CR $PR > /verif/.build/sc-$P-$n.log 2>&1
